@@ -465,6 +465,9 @@ RULE_TEXT = {
                  "by an evaluated operation (failing ones included) satisfies the class invariant afterwards",
     "R-REG.unchanged": "R-REG (C14 view): the state of every operand is identical before and after each evaluated "
                        "operation; refused in-place operations leave the target unchanged",
+    "R-REG.cdb": "R-REG (C01: the generated functions are the Cox-de Boor B-splines): base case (indicator functions), the "
+                 "recursion step as an exact linear map on opaque lower-order splines, and exact equality of the generated "
+                 "functions with the reference recursion on every knot multiplicity pattern",
     "R-REG.kernel": "R-REG (values of the integration / evaluation kernels): Spline::operator()(x), LinearForm{}(a) and "
                     "ScalarProduct{}(a, b) with b running over unit coefficient vectors, evaluated with opaque coefficients of a "
                     "and exact rational grid points: the result's affine form must have exactly the specified rational weights "
